@@ -1092,6 +1092,8 @@ class Interp:
             if isinstance(lo, Idx) and isinstance(hi, Idx):
                 r.cut = (lo, hi)
                 self.check_fencepost(base, lo, hi, node)
+                hi0 = Idx(hi.level, hi.base, hi.parity, hi.origin, 0)
+                self.check_element_range(lo, hi0, node)
             return r
         if isinstance(base, OffC):
             return base
@@ -1121,6 +1123,30 @@ class Interp:
         if isinstance(base, (Arr, Rows, Mask, Sel)):
             return base
         return TOP
+
+    @staticmethod
+    def flatten(origin):
+        """('off', lvl, inner, delta, role) chains -> (root, [(level, delta, role), ...]) outermost level last."""
+        chain = []
+        o = origin
+        while isinstance(o, tuple) and o and o[0] in ('off', 'offc'):
+            chain.append((o[1], o[3], o[4]))
+            o = o[2]
+        return o, chain
+
+    def check_element_range(self, lo, hi, node):
+        """[lo, hi) derived through several offset levels from one element index: lo = compose(i), hi = compose(i + 1)."""
+        ra, ca = self.flatten(lo.origin)
+        rb, cb = self.flatten(hi.origin)
+        if len(ca) < 2 or len(ca) != len(cb) or ra != rb or ra in ('c', None) or [c[0] for c in ca] != [c[0] for c in cb]:
+            return False
+        if not all(isinstance(c[1], int) for c in ca + cb):
+            return False
+        ok = all(c[1] == 0 for c in ca) and all(c[1] == 0 for c in cb[:-1]) and cb[-1][1] == 1
+        if not ok and lo.delta == 0:
+            self.err('fencepost', node, f'element range built from offsets at deltas {[c[1] for c in ca]} .. {[c[1] for c in cb]} (innermost first): the parts of element i are '
+                                        f'[compose(i), compose(i + 1)), the +1 belongs to the element index')
+        return True
 
     def check_part_range(self, lo, hi, node):
         """[lo, hi) as the coordinate (or part) range of ONE part: lo = offs[i], hi = offs[i + 1] of the same offsets and the same i
@@ -1198,6 +1224,10 @@ class Interp:
             return ZipV(args)
         if name in ('float', 'int', 'abs'):
             return a0 if isinstance(a0, (Q, Idx)) else (Const(a0.v) if isinstance(a0, Const) and isinstance(a0.v, (int, float)) else NUM)
+        if short in ('minimum', 'maximum', 'clip') and isinstance(a0, (Off, OffC)):
+            r = Off(a0.level, a0.win, a0.top, None, a0.tbase) if isinstance(a0, Off) else OffC(a0.level, a0.to, a0.win, a0.top)
+            r.modified = True
+            return r
         if name in ('min', 'max') or short in ('minimum', 'maximum', 'nanmin', 'nanmax', 'amin', 'amax') and name.startswith(('numpy', 'np')):
             self.R.stats['minmax'] += 1
             qs = [self.elemq(a) for a in args]
@@ -1229,7 +1259,7 @@ class Interp:
             if short == 'full' and len(args) > 1 and isinstance(args[1], Const) and isinstance(args[1].v, bool):
                 return Mask(lv)
             return Arr(FreshSlot(), lv)
-        if short in ('asarray', 'array', 'ascontiguousarray'):
+        if short in ('asarray', 'array', 'ascontiguousarray') and not name.startswith('pyarrow'):
             if isinstance(a0, Buf):
                 return a0
             if isinstance(a0, Tup) and not a0.items:
